@@ -232,23 +232,29 @@ def cmd_check(tier, prop):
     first = n_self  # the self-test already covered runs [0, n_self)
     _, not_run = runner.run_batch(specs_for(prop, seed, first, n_runs), timeout=prof["timeout"], budget_s=budget,
                                   on_result=on_result)
-    if prop == "C12" and not (os.environ.get("VERIF_STOP_ON_VIOLATION") and any(s not in known_sigs for s in fails)):
-        # systematic part: (warm-up, edit, probe, fault, lru capacity) combinations of a small catalogue;
+    if prop in ("C12", "C18") and not (os.environ.get("VERIF_STOP_ON_VIOLATION") and any(s not in known_sigs for s in fails)):
+        # systematic part - C12: (warm-up, edit, probe, fault, lru capacity) combinations of a small catalogue;
+        # C18: every in-place template x curated unit pairs x dtype x shape x view.
         # quick = a seeded sample, thorough = all of them
         import random
 
-        from unytsim import regsim
+        if prop == "C12":
+            from unytsim import regsim
 
-        total = regsim.SWEEP_TOTAL
+            total, nquick = regsim.SWEEP_TOTAL, 300
+        else:
+            from unytsim import c18sim
+
+            total, nquick = c18sim.sweep_total(), 2500
         if tier == "quick":
-            idxs = sorted(random.Random(f"{seed}:C12:sweep").sample(range(total), 300))
+            idxs = sorted(random.Random(f"{seed}:{prop}:sweep").sample(range(total), nquick))
         else:
             idxs = list(range(total))
-        sweep_specs = [{"prop": "C12", "seed": seed, "run": 10_000_000 + i, "sweep": i} for i in idxs]
+        sweep_specs = [{"prop": prop, "seed": seed, "run": 10_000_000 + i, "sweep": i} for i in idxs]
         _, nr2 = runner.run_batch(sweep_specs, timeout=prof["timeout"], budget_s=(30 if tier == "quick" else 3600),
                                   on_result=on_result)
         not_run += nr2
-        log(f"C12 sweep: {len(idxs) - nr2} of {total} systematic cases run")
+        log(f"{prop} sweep: {len(idxs) - nr2} of {total} systematic cases run")
     batch_wall = time.monotonic() - t0
     if harness_errors:
         for he in harness_errors[:3]:
